@@ -92,7 +92,18 @@ def run(ctx):
         # every Index::index on the substitution set uses an `id` payload of a LogicVar
         n = 0
         ok = True
-        for bb, t in b.calls():
-            if utable.is_ss_lookup(t):
-                n += 1
+        # lookups in the function itself or in a private helper it calls (`fn lookup(ss, id) -> Option<..>`)
+        seen_fns, todo = set(), [b]
+        while todo:
+            fb = todo.pop()
+            if fb.path in seen_fns or len(seen_fns) > 6:
+                continue
+            seen_fns.add(fb.path)
+            for bb, t in fb.calls():
+                if utable.is_ss_lookup(t):
+                    n += 1
+                nm = t["callee"].get("resolved") or t["callee"].get("path") or ""
+                hb = next((x for x in prog.lib_bodies() if x.path == nm and not x.is_pub and x.kind in ("Fn", "AssocFn")), None)
+                if hb is not None:
+                    todo.append(hb)
         ctx.ob("R2", name, n >= 1, ctx.where(b), "%d chain lookups ss[id]" % n)
